@@ -78,6 +78,10 @@ def scripted_programs(bpc):
         # '.' and '..': slots 14..17, 30..33, ...), read again by the second session (C06-m7: the reader's long-name accumulator was not carried
         # from one cluster of a directory to the next)
         [["makedir", "/q"]] + [["create", f"/q/quarterly report number {i:02d} (final).txt"] for i in range(36)] + [["listdir", "/q"]],
+        # a chained directory grows by two entries into a new cluster and shrinks back so that its slots fill the clusters before EXACTLY (no room
+        # for an end mark), as the last thing that happens to it (C06-m8 / C05-m7: the zero fill stopped with the new contents)
+        [["makedir", "/SPOOL"]] + [["create", f"/SPOOL/F{i:03d}.DAT"] for i in range(max(1, min(bpc // 32 - 2, 254)))] +
+        [["create", "/SPOOL/TMP1.DAT"], ["create", "/SPOOL/TMP2.DAT"], ["remove", "/SPOOL/TMP1.DAT"], ["remove", "/SPOOL/TMP2.DAT"], ["listdir", "/SPOOL"]],
     ]
 
 
